@@ -267,20 +267,19 @@ def c20_locks(src):
     return res
 
 
-def lean_lemmas(src):
-    """the fold lemma schemas behind contracts/lemmas.py are proved in Lean 4 + Mathlib
-    (lemmas/Fold.lean); the result is cached in .build/ keyed by the file's sha256"""
+def _lean_file(name):
+    """check lemmas/<name> with Lean 4 + Mathlib; the result is cached in .build/ keyed by the file's sha256"""
     import hashlib, json, os, subprocess, fcntl
     root = os.path.dirname(os.path.dirname(os.path.abspath(__file__)))
-    path = os.path.join(root, "lemmas", "Fold.lean")
+    path = os.path.join(root, "lemmas", name)
     text = open(path, encoding="utf-8").read()
     sha = hashlib.sha256(text.encode()).hexdigest()
     build = os.path.join(root, ".build")
     os.makedirs(build, exist_ok=True)
-    marker = os.path.join(build, "lean_ok.json")
-    oid = "lemmas/lean:Fold.lean-checked"
+    marker = os.path.join(build, "lean_ok_%s.json" % name)
+    oid = "lemmas/lean:%s-checked" % name
     if "sorry" in text or "axiom " in text:
-        return {oid: {"status": "refuted", "note": "Fold.lean contains sorry/axiom", "ms": 0, "backend": "lean", "complete": True}}
+        return {oid: {"status": "refuted", "note": "%s contains sorry/axiom" % name, "ms": 0, "backend": "lean", "complete": True}}
     with open(os.path.join(build, "lock"), "w") as lk:
         fcntl.flock(lk, fcntl.LOCK_EX)
         try:
@@ -291,7 +290,7 @@ def lean_lemmas(src):
         import time
         t = time.time()
         try:
-            p = subprocess.run(["lean", path], capture_output=True, text=True, timeout=900)
+            p = subprocess.run(["lean", path], capture_output=True, text=True, timeout=1500)
             ok = p.returncode == 0 and "error" not in p.stdout
         except Exception as e:
             return {oid: {"status": "undecided", "note": "lean could not be run: %s" % e, "ms": 0, "backend": "lean"}}
@@ -299,6 +298,16 @@ def lean_lemmas(src):
             json.dump({"sha": sha}, open(marker, "w"))
             return {oid: {"status": "discharged", "note": "lean exit 0", "ms": round((time.time() - t) * 1000), "backend": "lean-4"}}
         return {oid: {"status": "undecided", "note": "lean reported errors: %s" % p.stdout[-300:], "ms": 0, "backend": "lean"}}
+
+
+def lean_lemmas(src):
+    """the fold lemma schemas behind contracts/lemmas.py are proved in Lean 4 + Mathlib (lemmas/Fold.lean)"""
+    return _lean_file("Fold.lean")
+
+
+def lean_affine(src):
+    """the affine lemma and the unfolding equations behind the loop specs of conversions.convert (lemmas/Affine.lean)"""
+    return _lean_file("Affine.lean")
 
 
 def core_state(src):
